@@ -141,6 +141,28 @@ func genC17(tier string, seed uint64, emit func(string)) {
 			}
 		}
 	}
+	// long runs of one token (a pattern for fixed-width keys is a run of '?'): around the repeat limits and sizes of
+	// regular-expression engines (1000, 1024, 4096, 65535) - "compiling such a pattern never fails"
+	runs := []int{255, 999, 1000, 1001, 1024, 1500, 4096}
+	if tier == "thorough" {
+		runs = append(runs, 32767, 65535, 65536)
+	}
+	for _, n := range runs {
+		for _, tok := range []string{"?", "a", ".", "(", "\\"} { // runs of * are in the family above (the model's matcher is cubic in them)
+			pat := "k:" + strings.Repeat(tok, n) + ":*"
+			fill := "b"
+			if tok != "?" && tok != "*" {
+				fill = tok
+			}
+			exact := "k:" + strings.Repeat(fill, n) + ":x"
+			short := "k:" + strings.Repeat(fill, n-1) + ":x"
+			long := "k:" + strings.Repeat(fill, n+1) + ":x"
+			emit("glob " + hx([]byte(pat)) + " " + hx([]byte(exact)) + " " + hx([]byte(short)) + " " + hx([]byte(long)))
+			if n == 1001 || n == 4096 {
+				emit("keyscan " + hx([]byte(pat)) + " " + hx([]byte(exact)) + " " + hx([]byte(short)) + " 62")
+			}
+		}
+	}
 	// longer random patterns and keys over a wider ASCII alphabet (every regexp metacharacter)
 	wide := []byte("ab*?.+()|^${}[]\\-xyzEQdDwWsSbBAzZpPnrtfvx09 \t/:\n")
 	n := 3000
